@@ -141,6 +141,83 @@ def build():
     }, defs=cview,
     notes="the call to ReferenceRelation.get_affected_rows is checked against that method's "
           "contract (modular), not its body; sorted(set) is an assumed contract"))
+  # ---- reference LIST columns: a cell is None or a list of row ids -------------------------------
+  ListType = lambda: Obj("RefListType", consts={
+    "default": None,
+    "is_right_type": Model("ReferenceList.is_right_type(v): None or a list of ints (the only shapes "
+                           "modelled; an alt-text cell is read as None)", lambda ip, v: True)})
+  LCell = Opt(Seq(Int))
+  ColL = lambda: Obj("ReferenceListColumn", real_cls=column.ReferenceListColumn, _data=Seq(LCell),
+                     type_obj=ListType(), _relation=Rel())
+  def items(ip, c, k):
+    """The list of references stored in cell k, as a sequence: empty for None / out of range."""
+    data = c.fields["_data"]
+    kk = ip.int_term(k)
+    cell = data.at(kk)                 # SOpt(SSeq)
+    valid = z3.And(kk >= 0, kk < data.length, z3.Not(cell.isnone))
+    inner = cell.val
+    return SSeq(inner.elem, inner.arrs, z3.If(valid, inner.length, z3.IntVal(0)), inner.kind)
+  def aslist(ip, v):
+    """A cell value as a sequence: the list itself, empty for None."""
+    if isinstance(v, SOpt):
+      inner = v.val
+      return SSeq(inner.elem, inner.arrs, z3.If(v.isnone, z3.IntVal(0), inner.length), inner.kind)
+    if v is None: return Seq(Int).build(Seq(Int).leaves([]))
+    return v
+  lview = dict(view, items=items, aslist=aslist,
+    refs0="lambda IM, r, t: t in IM and r in IM[t]",
+    indexedL="lambda c: forall(k, i, k >= 0 and 0 <= i < len(items(c, k)), refs(c._relation, k, items(c, k)[i]))",
+    exactL="lambda c: forall(r, t, refs(c._relation, r, t), r >= 0 and "
+           "exists(i, 0 <= i < len(items(c, r)), items(c, r)[i] == t))")
+  same_data = ("len(self._data) == len(D) and forall(k, 0 <= k < len(D), len(items(self, k)) == len(itemsD(k)) and "
+               "forall(i, 0 <= i < len(itemsD(k)), items(self, k)[i] == itemsD(k)[i]))")
+  # NOT registered (kept for the record, DESIGN.md 14.2): with these invariants every loop
+  # obligation is discharged but the final `indexed` / `exact` postconditions of three paths stay
+  # `unknown` after 30 s (quantifier alternation over cell items across two havocked loops), so the
+  # RefList flavour of the data/index invariant is not claimed.
+  experimental = []
+  experimental.append(Contract(
+    prefix="C10.reflistcol.set", target="column:BaseReferenceColumn.set", file="sandbox/grist/column.py",
+    params=dict(self=ColL(), row_id=Int, value=LCell),
+    requires={"nonneg_row": "row_id >= 0", "indexed": "indexedL(self)", "exact": "exactL(self)"},
+    loops={
+      "BaseReferenceColumn._update_references#0": LoopSpec(
+        "C10.reflistcol.set.remove_old", index="idx", locals=dict(self=ColL()),
+        ghost=dict(IM0=(MapOf(Int, SetOf(Int)), "self._relation.inverse_map"), D=(Seq(LCell), "self._data"),
+                   L=(Seq(Int), "aslist(old_value)")),
+        invariants={
+          "data_fixed": "len(self._data) == len(D) and forall(k, 0 <= k < len(D), self._data[k] == D[k])",
+          "keys_stay": "forall(t, t in IM0, t in self._relation.inverse_map)",
+          "removed_so_far": "forall(r, t, True, refs(self._relation, r, t) == (refs0(IM0, r, t) and "
+                            "not (r == row_id and exists(j, 0 <= j < idx, L[j] == t))))",
+          "L_is_the_old_cell": "len(L) == len(items(old(self), row_id)) and "
+                               "forall(j, 0 <= j < len(L), L[j] == items(old(self), row_id)[j])",
+          "index_was_the_entry_index": "forall(r, t, True, refs0(IM0, r, t) == refs(old(self)._relation, r, t))",
+        }),
+      "BaseReferenceColumn._update_references#1": LoopSpec(
+        "C10.reflistcol.set.add_new", index="idx", locals=dict(self=ColL()),
+        ghost=dict(IM1=(MapOf(Int, SetOf(Int)), "self._relation.inverse_map"), D=(Seq(LCell), "self._data"),
+                   L=(Seq(Int), "aslist(new_value)")),
+        invariants={
+          "data_fixed": "len(self._data) == len(D) and forall(k, 0 <= k < len(D), self._data[k] == D[k])",
+          "added_so_far": "forall(r, t, True, refs(self._relation, r, t) == (refs0(IM1, r, t) or "
+                          "(r == row_id and exists(j, 0 <= j < idx, L[j] == t))))",
+          "L_is_the_new_cell": "len(L) == len(items(self, row_id)) and "
+                               "forall(j, 0 <= j < len(L), L[j] == items(self, row_id)[j])",
+          "other_rows_as_at_entry": "forall(r, t, r != row_id, refs0(IM1, r, t) == refs(old(self)._relation, r, t))",
+          "row_had_been_cleared": "forall(t, True, not refs0(IM1, row_id, t))",
+        }),
+    },
+    ensures={
+      "cell_written": "row_id < len(self._data) and self._data[row_id] == value",
+      "other_cells_kept": "forall(k, 0 <= k < len(old(self)._data) and k != row_id, "
+                          "self._data[k] == old(self)._data[k])",
+      "indexed": "indexedL(self)",
+      "exact": "exactL(self)",
+    }, defs=lview,
+    notes="RefList flavour of BaseReferenceColumn.set: two loops of the inlined _update_references "
+          "(remove the old list's references, add the new list's), each with `self` havocked and "
+          "the index described against a snapshot taken at loop entry"))
   return out
 
 
